@@ -1,5 +1,5 @@
 // auto-generated: "lalrpop 0.23.1"
-// sha3: 7dce8450d7d169e714bb508fd4955786f6af17244187bae46fa75cfad6efb7cd
+// sha3: e62fe4504b423aec7f1a89fc4f0dd370dd98bcd6f6e643c5a946d1a14021700b
 #[allow(unused_extern_crates)]
 extern crate lalrpop_util as __lalrpop_util;
 #[allow(unused_imports)]
@@ -677,7 +677,7 @@ fn __action4<
     (_, __0, _): (usize, &'input str, usize),
 ) -> String
 {
-    match ("\\".to_string(), match (b'}' as char.to_string(), "k".to_string()) { (a, b) => { let mut s = a; s.push_str(&b); s } }) { (a, b) => { let mut s = a; s.push_str(&b); s } }
+    match ("\\".to_string(), match ((b'}' as char).to_string(), "k".to_string()) { (a, b) => { let mut s = a; s.push_str(&b); s } }) { (a, b) => { let mut s = a; s.push_str(&b); s } }
 }
 
 #[allow(unused_variables)]
